@@ -35,6 +35,7 @@ def run(chk, repo):
         'C16.c deletion / substitution (incl. donor) / retained-intron intervals are the definitional gene intervals of their genomic intervals on both strands; REF is read at start',
         'C16.d event-type literals agree (CLI table, parser dispatch, constant)',
         'C16.e exon searches for the spanning exon include exon 0',
+        'C16.g no junction / alignment query is memoised under a key that omits an attribute its answer depends on',
     ]
     chk.not_decided = ['that the records reproduce the alternative isoform (exon adjacency logic of align_to_transcript / convert_to_variant_records)',
                        'insertion creators (branch by strand by design)']
@@ -194,6 +195,19 @@ def run(chk, repo):
         if f is None:
             continue
         chk.uses(f)
+        for fr in [n for n in walk_no_nested(f.node) if isinstance(n, ast.For) and isinstance(n.iter, ast.Call) and call_name(n.iter) == 'range']:
+            a = fr.iter.args
+            back = len(a) == 3 and unparse(a[2]) in ('-1',)
+            if back:
+                ok = unparse(a[1]) == '-1'
+                chk.ob('C16.e', f"{nm}: backward search runs down to exon 0 ('{unparse(fr.iter)}')", repo.loc(f, fr), ok,
+                       f"the backward search '{unparse(fr.iter)}' stops before exon 0 (range excludes its stop value {unparse(a[1])}): an alternative site inside the "
+                       "first exon is never matched and a wrong record kind is emitted", key=f"{f.qual}::backward-bound", fn=f.qual)
+            else:
+                stop = unparse(a[1] if len(a) >= 2 else a[0])
+                ok = stop.startswith('len(') and (len(a) < 3 or unparse(a[2]) == '1')
+                chk.ob('C16.e', f"{nm}: forward search runs up to the last exon ('{unparse(fr.iter)}')", repo.loc(f, fr), ok,
+                       f"forward search bound '{unparse(fr.iter)}'", key=f"{f.qual}::forward-bound", fn=f.qual)
         for w in [n for n in walk_no_nested(f.node) if isinstance(n, ast.While)]:
             t = unparse(w.test).replace(' ', '')
             dec = any(isinstance(x, ast.AugAssign) and isinstance(x.op, ast.Sub) for x in ast.walk(w))
@@ -225,3 +239,27 @@ def run(chk, repo):
     chk.ob('C16.f', 'pair loop is one of the complete idioms (enumerate+last-break / zip(e[:-1], e[1:]) / range(len-1))', hj.where, ok,
            f"{detail}: not a recognised complete pair iteration - the last intron can be skipped, so an annotated junction looks novel and records are emitted for annotated forms",
            key=hj.qual + '::all-pairs', fn=hj.qual)
+
+    # ------------------------------------------------------------------ g
+    chk.rule('C16.g', 'R-MEMO: memoised junction / alignment queries key on everything the answer depends on', 10)
+    import textwrap
+    ctl = ast.parse(textwrap.dedent("""
+        def is_novel(self, anno):
+            cache = anno.__dict__.setdefault('_c', {})
+            key = (self.chrom, self.upstream_end)
+            if key in cache:
+                return cache[key]
+            cache[key] = anno.genes[self.gene_id].has(self.upstream_end)
+            return cache[key]
+    """)).body[0]
+    gaps = G.memo_key_gaps(ctl)
+    if not gaps or gaps[0][2] != ['self.gene_id']:
+        raise AnalysisError('R-MEMO positive control did not fire')
+    for f_ in repo.funcs_in('seqvar.SplicingJunction', 'parser.RMATSParser'):
+        chk.uses(f_)
+        gaps = [g_ for g_ in G.memo_key_gaps(f_.node) if g_[2]]
+        chk.ob('C16.g', f"{f_.qual}: no memo, or the memo key covers every attribute the result reads", f_.where, not gaps,
+               '; '.join(f"{repo.loc(f_, g_[0])}: memo key {g_[1]} omits {g_[2]}" for g_ in gaps) +
+               ': the first caller decides the answer for every later caller that differs only in the omitted attribute (e.g. the same junction coordinates '
+               'asked for two overlapping genes), so records are emitted for annotated forms or suppressed for novel ones depending on event order',
+               key=f"{f_.qual}::memo-key", fn=f_.qual)
